@@ -20,7 +20,7 @@ DRIVER = os.path.join(HERE, "c03_driver.py")
 ECC_ELL = [0.0, 1e-8, 1e-4, 0.01, 0.1, 0.3, 0.5, 0.7, 0.9, 0.99, 0.999, 0.9999, 0.99999, 0.999999]
 BRANCH_NAMES = {0: "newton_converged", 1: "quartic_converged", 2: "newton_failed->bisection_elliptic",
                 3: "newton_failed->bisection_hyperbolic", 4: "quartic_failed->bisection_elliptic",
-                13: "bisection_hyperbolic+nan_rescue", 12: "bisection_elliptic+nan_rescue", 10: "newton_converged+nan_rescue"}
+                13: "bisection_hyperbolic+nan_rescue(e>=1e8 legacy)", 12: "bisection_elliptic+nan_rescue", 10: "newton_converged+nan_rescue"}
 KNOWN_KEY = "kepler:hyperbolic_bisection_bracket_overflow"
 KNOWN_512 = "kepler:whfast512_fixed_iterations_outside_small_step_domain"
 KNOWN_HANG = "kepler:hyperbolic_newton_overflow_nontermination"
@@ -145,7 +145,19 @@ def run(ctx):
     solver_cases = []          # (meta, p, mu, dt, predicted_code, var or None)
     hang_pred = []
     tries = 0
-    while any(got.get(k, 0) < v for k, v in quota.items()) and tries < 400000:
+    def legacy_case():
+        """e >= 1e8 flyby (outside the property's range e <= 50): the only regime in which, since fix 0366be3, the
+        hyperbolic bisection still collapses in the overflow region and the isnan(ri) straight-line rescue is taken
+        (kept on purpose: two tests of the pinned suite assert exactly dt*v there; relative error of order 1/e)."""
+        e = 10 ** rng.uniform(8.5, 12); r0 = 10 ** rng.uniform(-3, 3); mu = 10 ** rng.uniform(-3, 3)
+        v = math.sqrt((e + 1) * mu / r0)
+        dt = rng.choice([-1, 1]) * (r0 / v) * 10 ** rng.uniform(3.3, 6)
+        rot = randrot(rng)
+        p = [rot[i][0] * r0 for i in range(3)] + [rot[i][1] * v for i in range(3)]
+        return {"a": r0 / (e - 1), "e": e, "anomaly": 0.0, "mu": mu, "dt_over_P": dt * math.sqrt(mu / (r0 / (e - 1)) ** 3) / (2 * math.pi),
+                "legacy_e_ge_1e8": True}, p, mu, dt
+
+    while any(got.get(k, 0) < v for k, v in quota.items() if k != 13) and tries < 400000:
         tries += 1
         meta, p, mu, dt = gen_case(rng)
         code = ps.predict(p, mu, dt)
@@ -165,6 +177,15 @@ def run(ctx):
             dtp = sg * th * math.sqrt(sum(v * v for v in pp[:3]))
             solver_cases.append(({"a": 1.0, "e": 1.0001, "anomaly": 0.0, "mu": 1.0, "dt_over_P": dtp / (2 * math.pi),
                                   "probe": "nonfinite_z_guard"}, pp, 1.0, dtp, ps.predict(pp, 1.0, dtp), None))
+    ltries = 0
+    while got.get(13, 0) < quota[13] and ltries < 20000:
+        ltries += 1
+        meta, p, mu, dt = legacy_case()
+        code = ps.predict(p, mu, dt)
+        if code != 13:
+            continue
+        got[13] = got.get(13, 0) + 1
+        solver_cases.append((meta, p, mu, dt, code, None))
     nvar = ctx.scale(100, 800)
     for _ in range(nvar):
         meta, p, mu, dt = gen_case(rng, max_rev=30)
@@ -272,8 +293,10 @@ def run(ctx):
                 worst[(tag, k)] = max(worst.get((tag, k), 0.0), res[k])
 
     # 3a. the solver itself: all correspondence cases without variation + fresh random ones
-    sjobs = [(p, mu, dt, libout[k][:6]) for k, (_, p, mu, dt, _, dp) in enumerate(solver_cases) if dp is None]
-    smeta = [(m, p, mu, dt, c) for (m, p, mu, dt, c, dp) in solver_cases if dp is None]
+    # (the e >= 1e8 legacy cases are compared bit for bit above but not judged: outside the property's range)
+    sjobs = [(p, mu, dt, libout[k][:6]) for k, (m, p, mu, dt, _, dp) in enumerate(solver_cases)
+             if dp is None and not m.get("legacy_e_ge_1e8")]
+    smeta = [(m, p, mu, dt, c) for (m, p, mu, dt, c, dp) in solver_cases if dp is None and not m.get("legacy_e_ge_1e8")]
     extra_n = ctx.scale(600, 20000)
     ecases = []
     for _ in range(extra_n):
@@ -326,8 +349,6 @@ def run(ctx):
             far = integ in ("mercurius", "trace")
             meta, p, mu, dt = gen_case(rng, hyp=(rng.random() < 0.3), max_rev=(0.05 if far else 1e3),
                                        emax_ell=(0.9 if far else None))
-            while overflow_predicate(p, mu, dt)[1] > 600:     # regime of the known hyperbolic-overflow defects: tested on the solver
-                meta, p, mu, dt = gen_case(rng, hyp=True, max_rev=(0.05 if far else 1e3))
             G = 10 ** rng.uniform(-3, 3) if rng.random() < 0.5 else 1.0
             q = (10 ** rng.uniform(-9, 0)) if massive else 0.0     # mass ratio m1/m0
             m0 = mu / G / (1 + q) if coord in ("jacobi", "whds") or integ == "saba" else mu / G
